@@ -46,6 +46,10 @@ CLAIMS["C20"] = ("store-key prefix coverage (writer prefixes vs export readers v
     "Static decision, for all 15 modules, of the structural necessary conditions of the genesis round trip: every key prefix a keeper writes is exported and re-imported or re-derived at import; every GenesisState field filled by export is read by import and vice versa; every bulk reader used by export decodes the records it returns. Every state prefix is covered, which a round-trip test only does for the state its workload happens to create. The 36 prefixes that today do not survive a round trip (id counters, limit bids, histories, sweep offsets, snapshots ...) are recorded as known findings keyed by (module, prefix). NOT covered: behavioural equality after the round trip; that restored values equal exported values beyond field/prefix agreement.",
     "DESIGN.md §3 C20")
 
+CLAIMS["C13"] = ("books-twin analysis (custody movement vs book update, expression-identity amounts), must-pass successful-book-update guard for collector custody, bounded-release comparison guard, stale-read analysis",
+    "Static decision of the bookkeeping shape: locker handlers move coins together with NetBalance and the deposited total for the very same amount, releases are bounded by the balance, no stale locker copy is written back after the savings calculation; every movement out of (into) the collector custody, anywhere in the repository (25 sites), is on a path with a successful decrease (increase) of the recorded net fees for the same amount, the book update being accepted before a failure can be swallowed; the decrease cannot store a negative balance. NOT covered: the numeric identities custody >= sum of books, savings-rate arithmetic.",
+    "DESIGN.md §3 C13")
+
 NOT_APPLICABLE = {
     "C18": "purely numeric relations between evaluations of accrual/rate functions (non-negativity, monotonicity, sub-additivity, continuity; one path through float64 math.Pow); no guard, pairing, provenance or ordering is a necessary condition of them, so no sound static argument in reach applies (DESIGN.md §3 C18, §4).",
 }
